@@ -47,10 +47,12 @@ CASES = {
               ["Erase.move_fwd", "Erase.destroy_n", "Erase.destroy1", "Slots.move_assign"]),
     "insert_own": (("size", "cap", "pos", "src"), False, "KInsertOwn", "Alias.insert_own",
                    ["Alias.read", "Alias.assign_from_temp", "Slots.shift_right_cnt", "Slots.copy_construct", "Slots.copy_assign"]),
-    "insert_cnt_th": (("size", "cap", "pos", "count"), True, "KInsertCntTh", "Throw.insert_cnt_th",
+    # the model of the repaired insert(pos, count, v) (Throw.insert_cnt_th is the model of the code before the repair of F11)
+    "insert_cnt_th": (("size", "cap", "pos", "count"), True, "KInsertCntTh", "Throw.insert_cnt_fix",
                       ["Throw.shift_right_cnt", "Throw.uninit_move_n", "Throw.move_backward", "Throw.move_construct", "Throw.move_assign",
+                       "Throw.fill_after_shift_fix", "Throw.unshift_right", "Throw.unshift_move",
                        "Throw.uninit_fill_n", "Throw.uninit_fill_loop", "Throw.fill_n_alive", "Throw.copy_assign_alive",
-                       "Throw.copy_construct", "Throw.destroy_n", "Throw.tick"]),
+                       "Throw.copy_construct", "Throw.destroy_n", "Throw.destroy", "Throw.tick"]),
     "resize_grow": (("size", "cap", "count"), True, "KResizeGrow", "Throw.resize_grow",
                     ["Throw.uninit_fill_n", "Throw.uninit_fill_loop", "Throw.copy_construct", "Throw.destroy_n", "Throw.tick"]),
     "assign_grow": (("size", "cap", "count"), True, "KAssignGrow", "Throw.fill_fix",
@@ -211,7 +213,7 @@ Definition run (c : case) : list Z :=
       let n := last - first in
       showS cap (if n =? 0 then inr (initS size cap) else Erase.erase_n (initS size cap) first n (size - last)) NOSIZE
   | KInsertOwn size cap pos src => showS cap (Alias.insert_own (initS size cap) size pos src) NOSIZE
-  | KInsertCntTh size cap pos count th => showT cap (Throw.insert_cnt_th (initT size cap) th size pos count v) NOSIZE NOSIZE
+  | KInsertCntTh size cap pos count th => showT cap (Throw.insert_cnt_fix (initT size cap) th size pos count v) NOSIZE NOSIZE
   | KResizeGrow size cap count th =>
       let (o, ns) := Throw.resize_grow (initT size cap) th size count v in showT cap o (Z.of_nat ns) (Z.of_nat ns)
   | KAssignGrow size cap count th => showT cap (Throw.fill_fix (initT size cap) th 0 size count v) NOSIZE NOSIZE
